@@ -36,7 +36,7 @@ package fix
 //@   method FromBytes(d []byte) (err error):
 //@     modifies self.*
 //@     ensures[C02,C03] imp(istype(self, *Raw), err == nil && self.(*Raw).value == d)
-//@     ensures[C02,C14] @decoded imp(!isnil(d), fbPost(self, d, err))
+//@     ensures[C02,C14,C16,C10,C06] @decoded imp(!isnil(d), fbPost(self, d, err))
 //@     ensures[C02] @null imp(isnil(d) && !istype(self, *Raw), nullV(self) && err == nil)
 //@     reveal nullV
 //@   method Value() (res interface{}):
